@@ -95,14 +95,14 @@ type ZKSession struct {
 }
 
 type ZKServer struct {
-	w        *World
-	Nodes    map[string]*znode
-	Sessions map[int64]*ZKSession
-	nextSess int64
-	zxid     int64
-	Down     bool // the whole ensemble is unavailable
-	ChildOrder int // 0 sorted ascending, 1 descending
-	Clients  []*ZKClient
+	w          *World
+	Nodes      map[string]*znode
+	Sessions   map[int64]*ZKSession
+	nextSess   int64
+	zxid       int64
+	Down       bool // the whole ensemble is unavailable
+	ChildOrder int  // 0 sorted ascending, 1 descending
+	Clients    []*ZKClient
 }
 
 func newZKServer(w *World) *ZKServer {
